@@ -102,15 +102,15 @@ def py_lex(s: str):
     return val, s2[len(tok.string):]   # (tok.end columns are unreliable for multi-line tokens with astral characters)
 
 
-LEX_ALPHA = ['"', '"', '"', '\\', '\\', '\\', "'", 'n', 'r', 't', 'x', 'u', 'U', 'N', '{', '}', '0', '1', '7', '8', '9', 'a', 'f', 'F', 'g',
-             'A', '4', '\n', '\r', ' ', '\u00e9', '\U0001f600', '\x0c', 'z', '#']
+LEX_ALPHA = ['"', '"', '"', '\\', '\\', '\\', "'", "'", 'n', 'r', 't', 'x', 'u', 'U', 'N', '{', '}', '0', '1', '7', '8', '9', 'a', 'f', 'F', 'g',
+             'A', '4', '2', '2', '7', '4', '\n', '\r', ' ', '\u00e9', '\U0001f600', '\x0c', 'z', '#']
 
 
 def gen_literal(rng) -> str:
     body = "".join(rng.choice(LEX_ALPHA) for _ in range(rng.randint(0, 10)))
     r = rng.random()
     rest = rng.choice(["", ",", ": 1", "\n", " # c", ")", " x", '"', "'"])
-    if r < 0.12:   # single-quoted literal (read by the model through the quote exchange)
+    if r < 0.12:   # single-quoted literal (the model runs the same machine with the apostrophe as quote character)
         return "'" + body.replace("\n", "n") + "'" + rest
     if r < 0.5:
         return '"' + body + '"' + rest
@@ -126,7 +126,8 @@ def lex_corpus() -> list[str]:
             '"\\U00110000"', '"\\ud83d\\ude00"', '"\\N{DASH}"', '"\\777"', '"\\18"', '"\\0"', '"a\nb"', '"a\rb"', '"""a\rb"""',
             '"""a\r\nb"""', '"a\\\nb"', '"a\\\r\nb"', '"""a\\"""', '"""a\\""""', '"""a""""', '"""a"" """', '"a\x00b"', '"a',
             '"""a""', 'x"a"', '"" "', '"\\', '"""\\', '"\\\r"', '"""\\\r"""', '"\\8"', '"\\x4\n1"', '"\\U0010FFFF"', '"\\U0010ffff1"', '"a\ud800b"', '"\\ud800"',
-            '"""\udfff"""', "'a'", "'a\\'b'", "'a\"b'", "'a'b'", "'\\x41\\u00e9'", "''", "'' x", "'a\nb'", "'\\\"'"]
+            '"""\udfff"""', "'a'", "'a\\'b'", "'a\"b'", "'a'b'", "'\\x41\\u00e9'", "''", "'' x", "'a\nb'", "'\\\"'", "'\\47'", "'\\x27'", "'\\42\\x22\\u0027\\U00000022'", '"\\47\\42\\x27\\x22"', "'\"\"\\47\"#8{7'\n",
+            "'\\t\\47'UA8': 1", '"""\\47\\42"""', "'\\047x'"]
 
 
 def c_lex_case(s: str, exp) -> str:
@@ -843,7 +844,7 @@ def main(chk: Check, replay: dict | None = None) -> int:
     corpus = load_corpus("C15")
 
     # ---- (i) lexer model vs CPython
-    lits = lex_corpus() + [gen_literal(rng) for _ in range(6000 if chk.thorough else 1500)]
+    lits = [c["input"]["literal"] for c in corpus if "literal" in c["input"]] + lex_corpus() + [gen_literal(rng) for _ in range(6000 if chk.thorough else 1500)]
     lits = [s for s in lits if ("\x00" not in s or s in lex_corpus()) and not s.startswith("'''")]
     lex_cases = []
     n_err = n_n = 0
